@@ -10,6 +10,7 @@ import (
 
 	bleve "github.com/blevesearch/bleve/v2"
 	"github.com/blevesearch/bleve/v2/analysis/analyzer/keyword"
+	"github.com/blevesearch/bleve/v2/index/scorch"
 	"github.com/blevesearch/bleve/v2/mapping"
 	"github.com/blevesearch/bleve/v2/search"
 	"github.com/blevesearch/bleve/v2/search/query"
@@ -218,7 +219,13 @@ func (a *IndexA) Close() {
 // analysis queue, so the build is repeated until the read-back order is the
 // intended one (checked BEFORE the deletions, which are then applied in one
 // batch and do not renumber anything as long as no segment becomes empty).
-func BuildIndexA(eng string, l Layout) (*IndexA, error) {
+// For EngScorchMerged the layout must be one segment: the documents are
+// indexed one per batch in order and force-merged into a single (1-hit
+// encoding) segment under dir.
+func BuildIndexA(eng string, l Layout, dir string) (*IndexA, error) {
+	if eng == EngScorchMerged && len(l.Segs) != 1 {
+		return nil, fmt.Errorf("merged layout must be a single segment")
+	}
 	n := l.N()
 	for _, sz := range l.Segs {
 		if sz <= 0 {
@@ -240,22 +247,42 @@ func BuildIndexA(eng string, l Layout) (*IndexA, error) {
 		off += sz
 	}
 	for attempt := 0; attempt < 200; attempt++ {
-		idx, err := NewIndex(eng, mappingA())
+		adir := ""
+		if dir != "" {
+			adir = filepath.Join(dir, fmt.Sprintf("a%d", attempt))
+			if err := os.MkdirAll(adir, 0o755); err != nil {
+				return nil, err
+			}
+		}
+		idx, err := NewIndex(eng, mappingA(), adir)
 		if err != nil {
 			return nil, err
 		}
 		off := 0
 		for _, sz := range l.Segs {
-			b := idx.NewBatch()
-			for d := off; d < off+sz; d++ {
-				if err := b.Index(DocID(d), docA(d, n)); err != nil {
+			if eng == EngScorchMerged {
+				for d := off; d < off+sz; d++ {
+					if err := idx.Index(DocID(d), docA(d, n)); err != nil {
+						return nil, err
+					}
+				}
+			} else {
+				b := idx.NewBatch()
+				for d := off; d < off+sz; d++ {
+					if err := b.Index(DocID(d), docA(d, n)); err != nil {
+						return nil, err
+					}
+				}
+				if err := idx.Batch(b); err != nil {
 					return nil, err
 				}
 			}
-			if err := idx.Batch(b); err != nil {
+			off += sz
+		}
+		if eng == EngScorchMerged {
+			if err := ForceMerge(idx); err != nil {
 				return nil, err
 			}
-			off += sz
 		}
 		ok, err := orderIs(idx, eng, n, nil)
 		if err != nil {
@@ -284,13 +311,22 @@ func BuildIndexA(eng string, l Layout) (*IndexA, error) {
 		if err != nil {
 			return nil, err
 		}
+		// the number of segments at the root is the layout's
+		if sc, ok := adv.(*scorch.Scorch); ok {
+			sm := sc.StatsMap()
+			nseg := toInt(sm["num_root_memorysegments"]) + toInt(sm["num_root_filesegments"])
+			if nseg != len(l.Segs) {
+				idx.Close()
+				return nil, fmt.Errorf("engine %s: %d segments at the root, layout wants %d", eng, nseg, len(l.Segs))
+			}
+		}
 		rd, err := adv.Reader()
 		if err != nil {
 			return nil, err
 		}
 		a := &IndexA{Eng: eng, Idx: idx, Layout: l, Reader: rd}
 		for d := 0; d <= n; d++ {
-			if eng == EngScorch {
+			if IsScorch(eng) {
 				a.Internal = append(a.Internal, index.NewIndexInternalID(nil, uint64(d)))
 			} else {
 				a.Internal = append(a.Internal, index.IndexInternalID(DocID(d)))
@@ -299,6 +335,20 @@ func BuildIndexA(eng string, l Layout) (*IndexA, error) {
 		return a, nil
 	}
 	return nil, fmt.Errorf("could not obtain the intended doc-number order in 200 attempts")
+}
+
+func toInt(v any) int {
+	switch x := v.(type) {
+	case uint64:
+		return int(x)
+	case int:
+		return x
+	case int64:
+		return int(x)
+	case float64:
+		return int(x)
+	}
+	return -1
 }
 
 // orderIs: the live documents, in internal order, are exactly the layout's
@@ -329,7 +379,7 @@ func orderIs(idx bleve.Index, eng string, n int, deleted []int) (bool, error) {
 		if i >= len(live) || live[i].External != DocID(d) {
 			return false, nil
 		}
-		if eng == EngScorch {
+		if IsScorch(eng) {
 			if int(live[i].Internal.Value()) != d {
 				return false, nil
 			}
